@@ -362,8 +362,33 @@ func (e *Engine) intrinsic(fn *ssa.Function, args []Value, guard T, site *ssa.Ca
 			sum = binop("+", sum, bit, false)
 		}
 		return sum, true
-	case "encoding/json.Marshal", "encoding/json.Unmarshal":
-		panic(engineError{"encoding/json is not modelled"})
+	case "encoding/json.Marshal":
+		// ideal-codec stub: the encoded bytes are an opaque blob that remembers the value
+		iv, ok := args[0].(IfaceV)
+		if !ok || iv.typ == nil {
+			panic(engineError{"json.Marshal of nil"})
+		}
+		arr := newArrayLoc(types.Typ[types.Uint8], 8)
+		if e.jsonBlobs == nil {
+			e.jsonBlobs = map[*Loc]IfaceV{}
+		}
+		e.jsonBlobs[arr] = iv
+		return TupleV{[]Value{SliceV{base: arr, len: 8, cap: 8}, IfaceV{}}}, true
+	case "encoding/json.Unmarshal":
+		data, _ := args[0].(SliceV)
+		dst := args[1].(IfaceV)
+		errV := IfaceV{typ: types.Universe.Lookup("error").Type(), v: StringV{s: "<json error>", opaque: true}}
+		blob, ok := e.jsonBlobs[data.base]
+		if !ok || data.off != 0 || data.len != 8 {
+			return errV, true // bytes that did not come from Marshal: rejected
+		}
+		p, isPtr := dst.v.(Ptr)
+		pt, isPT := dst.typ.Underlying().(*types.Pointer)
+		if !isPtr || !isPT || !types.Identical(pt.Elem(), blob.typ) {
+			return errV, true
+		}
+		storeTyped(p, blob.typ, blob.v)
+		return IfaceV{}, true
 	}
 	return nil, false
 }
